@@ -17,7 +17,7 @@ def ordering_predicates(ctx):
     ctx.rule(rid, "the predicate that decides where a list search stops is evaluated over all order relations of (hash, key) for three keys and "
                   "every hash function on them: it must be a total preorder whose symmetric part is key equality (exhaustive finite evaluation "
                   "of the predicate's expression tree)")
-    keys = [0, 1, 2]
+    keys = [0, 1, 2] if ctx.tier != "thorough" else [0, 1, 2, 3]
     for pat in (M + "data_with_hash::greater_or_equal", M + "data_without_hash::greater_or_equal"):
         for fn in flow._shapes(ctx, pat):
             rets = flow.find(fn, {"k": "return"})
@@ -30,7 +30,7 @@ def ordering_predicates(ctx):
             viol = None
             n_eval = 0
             try:
-                for f in itertools.product([0, 1, 2], repeat=3):   # hash function key -> hash
+                for f in itertools.product(keys, repeat=len(keys)):   # hash function key -> hash
                     def P(x, y):
                         env = {"hash": f[x], "this.hash": f[x], "first": x, "this.first": x, "h": f[y], "key": y}
                         env.update(cmpops)
